@@ -194,19 +194,36 @@ func c11Scenario(name string, clients []gridClient, srvBudget int) *explore.Scen
 
 func c11Scenarios(thorough bool) []*explore.Scenario {
 	if thorough {
-		return []*explore.Scenario{c11Scenario("grid-agreement", gridClients(32, true), 3)}
+		return []*explore.Scenario{c11Scenario("grid-agreement", append(gridClients(32, true), c11OddClients()...), 3)}
 	}
-	return []*explore.Scenario{c11Scenario("grid-agreement", gridClients(2, false), 1)}
+	return []*explore.Scenario{c11Scenario("grid-agreement", append(gridClients(2, false), c11OddClients()...), 1)}
 }
 
 func init() {
 	register(&Prop{ID: "C11", Level: "exploration", Variant: "A", Scenarios: c11Scenarios,
 		Run: func(c *explore.Check, thorough bool) {
-			c.Rule = "successful handshakes of the C10 grid (client x offered server choices, <=1 (2) server-axis deviations) x SNI mode {name, RemoveSNIExtension, IP literal, empty, another name through SetSNI after an explicit BuildHandshakeState} x server {no client auth, RequestClientCert} x {first connection, second connection through the same Config and session cache (resumed where the parrot can)}: both ConnectionStates compared field by field (version, suite, ALPN, curve, DidResume, ECHAccepted, ServerName == SNI parsed from the wire) and ExportKeyingMaterial compared for 27 (label, context, length) triples. distinct = (client, sni mode, server choice, client auth). ECH handshakes are compared by the same oracle inside C15."
+			c.Rule = "successful handshakes of the C10 grid (client, plus custom specs with an ECH inner-marker-only / GREASE-only extension, x offered server choices, <=1 (2) server-axis deviations) x SNI mode {name, RemoveSNIExtension, IP literal, empty, another name through SetSNI after an explicit BuildHandshakeState} x server {no client auth, RequestClientCert} x {first connection, second connection through the same Config and session cache (resumed where the parrot can)}: both ConnectionStates compared field by field (version, suite, ALPN, curve, DidResume, ECHAccepted, ServerName == SNI parsed from the wire) and ExportKeyingMaterial compared for 27 (label, context, length) triples. distinct = (client, sni mode, server choice, client auth). ECH handshakes are compared by the same oracle inside C15."
 			c.Assumptions = []string{"EKM bytes are compared when both sides return bytes; a one-sided refusal is accepted only for the two documented reasons (renegotiation enabled, TLS<=1.2 without EMS)"}
 			runAll(c, c11Scenarios(thorough), 0)
 			c.Gate(c.Total.Counters["ekm_both_succeed"] >= 1000, "non-vacuity: %d both-succeed EKM comparisons", c.Total.Counters["ekm_both_succeed"])
 			c.Gate(c.Total.Counters["resumed_compared"] >= 100, "non-vacuity: %d resumed connections compared", c.Total.Counters["resumed_compared"])
 			c.Gate(c.Total.Counters["compared_connections"] >= 500, "non-vacuity: %d compared connections", c.Total.Counters["compared_connections"])
 		}})
+}
+
+// c11OddClients — custom specs carrying extensions a server may misread as a negotiation: an
+// encrypted_client_hello extension that is only the one-byte "inner" marker (no ECH is on offer),
+// and a GREASE ECH extension in a spec that is otherwise plain.
+func c11OddClients() []gridClient {
+	mk := func(name string, ext func() tls.TLSExtension) gridClient {
+		return gridClient{Name: "custom:" + name, ID: tls.HelloCustom, Spec: func() (*tls.ClientHelloSpec, error) {
+			sp := handshakeSpec("tls13-minimal")
+			sp.Extensions = append(sp.Extensions, ext())
+			return sp, nil
+		}}
+	}
+	return []gridClient{
+		mk("ech-inner-marker-only", func() tls.TLSExtension { return &tls.GenericExtension{Id: 0xfe0d, Data: []byte{1}} }),
+		mk("ech-grease-only", func() tls.TLSExtension { return tls.BoringGREASEECH() }),
+	}
 }
